@@ -380,6 +380,10 @@ func genC06(t *rapid.T) c06Case {
 			c.Src = subsetOf(t, "src-cands", c06SrcCands, 4)
 		}
 	}
+	if chance(t, "duplicate-rule", 3) {
+		// the same rule text twice (e.g. present in two lists)
+		c.Req = append(c.Req, c.Req[rapid.IntRange(0, len(c.Req)-1).Draw(t, "dup-of")])
+	}
 	n := len(c.Req) + len(c.Src)
 	idx := make([]int, n)
 	for i := range idx {
